@@ -279,17 +279,9 @@ func (e *Engine) unwind(th *Thread) {
 }
 
 func (e *Engine) threadFinished(th *Thread) {
-	if th == e.threads[0] {
-		e.done = true
-		if e.outcome == "" {
-			e.outcome = "ok"
-		}
-	}
+	e.threadExited(th)
 }
 
-func (e *Engine) spawn(callee Value, args []Value) {
-	e.unsupported("go statement")
-}
 
 func (e *Engine) builtin(b *ssa.Builtin, args []Value, site ssa.Instruction) Value {
 	sig := b.Type().(*types.Signature)
